@@ -10,18 +10,19 @@ import (
 // C10 - STARTTLS discards all plaintext state and input, on server and client.
 
 type c10X struct {
-	Half     int // 0 server half, 1 client half
-	TLSMode  int
-	Pre      int // 0 greeted, 1 authenticated, 2 mid-transaction, 3 mid-BDAT
-	Inject   int // 0 absent, 1 same segment as STARTTLS, 2 later segment before the ClientHello
-	AuthBE   bool
-	TLSBdat  bool  // a chunked message is sent inside TLS under a size limit
-	FailedHS bool  // the handshake after the 220 fails (no ClientHello but a line of text): the connection goes on in plaintext
-	FailIdx  []int // step indexes after the failed handshake: EHLO, QUIT
-	StartIdx int
-	EhloPre  int
-	Tail     []string // expectation per in-TLS step: "5", "250", "221", "!503", "ehlo"
-	TailIdx  []int
+	Half       int // 0 server half, 1 client half
+	TLSMode    int
+	Pre        int // 0 greeted, 1 authenticated, 2 mid-transaction, 3 mid-BDAT
+	Inject     int // 0 absent, 1 same segment as STARTTLS, 2 later segment before the ClientHello
+	InjectForm int // what is injected: 0 two command lines, 1 an unterminated run just below the line limit, 2 a run longer than the limit
+	AuthBE     bool
+	TLSBdat    bool  // a chunked message is sent inside TLS under a size limit
+	FailedHS   bool  // the handshake after the 220 fails (no ClientHello but a line of text): the connection goes on in plaintext
+	FailIdx    []int // step indexes after the failed handshake: EHLO, QUIT
+	StartIdx   int
+	EhloPre    int
+	Tail       []string // expectation per in-TLS step: "5", "250", "221", "!503", "ehlo"
+	TailIdx    []int
 	// client half
 	Stub      int
 	Via       int
@@ -98,6 +99,17 @@ func genC10(t *Tape, tier string) *Scenario {
 		st.Glue = x.Inject == 1
 		steps = append(steps, st)
 		inj := Step{Kind: kInject, Data: []byte("MAIL FROM:<ok-bait-inj@evil.example>\r\nRCPT TO:<ok-bait-rcpt@evil.example>\r\n"), Wait: 1}
+		if x.Inject == 1 {
+			// (in the STARTTLS segment the injected octets may also be a long run without a
+			// line end: nothing of it - not even its length - may count inside TLS)
+			x.InjectForm = t.Named("c10injform", 3)
+			switch x.InjectForm {
+			case 1:
+				inj.Data = []byte("NOOP " + strings.Repeat("x", sc.Srv.MaxLine-15))
+			case 2:
+				inj.Data = []byte("NOOP " + strings.Repeat("x", sc.Srv.MaxLine+1000))
+			}
+		}
 		if x.Inject == 2 {
 			inj.Pre = Dur(1+t.Intn(20)) * 100 * time.Microsecond
 		}
@@ -138,7 +150,7 @@ func genC10(t *Tape, tier string) *Scenario {
 	cs := ConnScript{Lat: drawLat(t), LatBack: drawLat(t), Steps: steps}
 	cs.defaults()
 	sc.Conns = []ConnScript{cs}
-	sc.Strata = []string{fmt.Sprintf("server/tls%d/%s/inject%d", x.TLSMode, c10Pre[x.Pre], x.Inject)}
+	sc.Strata = []string{fmt.Sprintf("server/tls%d/%s/inject%d.%d", x.TLSMode, c10Pre[x.Pre], x.Inject, x.InjectForm)}
 	return sc
 }
 
@@ -472,6 +484,9 @@ func classifyC10(sc *Scenario, h *History, st *Stats) string {
 		st.Probes["server_tls_session_established"]++
 		if x.Inject == 1 {
 			st.Probes["injected_plaintext_same_segment_then_tls_ok"]++
+			if x.InjectForm > 0 {
+				st.Probes["injected_long_run_without_line_end_then_tls_ok"]++
+			}
 		}
 	}
 	if ch.HandshakeErr != "" && x.Inject == 2 {
@@ -481,7 +496,7 @@ func classifyC10(sc *Scenario, h *History, st *Stats) string {
 		st.Faults["handshake_fails_connection_goes_on_in_plaintext"]++
 		return fmt.Sprintf("server|failed-handshake|%d|%v", x.Pre, x.AuthBE)
 	}
-	return fmt.Sprintf("server|%d|%d|%d|%v|%v", x.TLSMode, x.Pre, x.Inject, x.AuthBE, x.Tail)
+	return fmt.Sprintf("server|%d|%d|%d.%d|%v|%v", x.TLSMode, x.Pre, x.Inject, x.InjectForm, x.AuthBE, x.Tail)
 }
 
 func init() {
@@ -501,7 +516,7 @@ func init() {
 				for tl := 0; tl < 5; tl++ {
 					for pre := 0; pre < 4; pre++ {
 						for inj := 0; inj < 3; inj++ {
-							out = append(out, map[string]int{"c10half": 0, "c10tls": tl, "c10pre": pre, "c10inject": inj})
+							out = append(out, map[string]int{"c10half": 0, "c10tls": tl, "c10pre": pre, "c10inject": inj, "c10injform": r % 3})
 						}
 					}
 				}
@@ -516,7 +531,7 @@ func init() {
 		Real:        []string{"smtp.Server.Serve/handleConn, handleStartTLS, handleGreet", "smtp.Client: NewClientStartTLS, DialStartTLS, SendMail, startTLS/setConn, hello, Mail", "crypto/tls client and server", "net/textproto"},
 		Stub:        []string{"net.Listener (SimListener)", "net.Conn (SimConn, with a raw tap below TLS)", "Backend/AuthSession (SimBackend)", "hostile SMTP server (stub) for the client half", "dialing (VerifDial hook, build tag verif)", "clock (synctest)"},
 		Assumptions: []string{"after a failed handshake nothing is judged except C08's rules", "package-level SendMail verifies certificates with the default configuration, so against the simulated self-signed peer only its failure modes are reachable"},
-		Required:    []string{"client_tls_session_established", "in_tls_ehlo_reply_without_capabilities", "injected_plaintext_later_segment_breaks_handshake", "injected_plaintext_same_segment_then_tls_ok", "server_tls_session_established", "stub_honest", "stub_454", "stub_starttls-not-advertised", "stub_220-then-garbage", "stub_220-then-cut", "stub_220+injected-reply-same-segment", "stub_220+injected-reply-later-segment", "handshake_fails_connection_goes_on_in_plaintext", "in_tls_ehlo_refused_client_falls_back_to_helo"},
+		Required:    []string{"client_tls_session_established", "in_tls_ehlo_reply_without_capabilities", "injected_plaintext_later_segment_breaks_handshake", "injected_plaintext_same_segment_then_tls_ok", "server_tls_session_established", "stub_honest", "stub_454", "stub_starttls-not-advertised", "stub_220-then-garbage", "stub_220-then-cut", "stub_220+injected-reply-same-segment", "stub_220+injected-reply-later-segment", "handshake_fails_connection_goes_on_in_plaintext", "in_tls_ehlo_refused_client_falls_back_to_helo", "injected_long_run_without_line_end_then_tls_ok"},
 		QuickRuns:   12000, ThoroughRuns: 600000,
 	})
 }
